@@ -371,7 +371,7 @@ impl Gen {
                     V_RECIP => Op::Recip,
                     V_LN => Op::Ln,
                     V_EXP => Op::Exp,
-                    V_POWF => Op::Powf(*self.rng.pick(&[2.0, 3.0, 0.5, 1.5, -1.0])),
+                    V_POWF => Op::Powf(*self.rng.pick(&[2.0, 3.0, 0.5, 1.5, -1.0, 0.0, 1.0])),
                     V_SIGMOID => Op::Sigmoid,
                     _ => Op::Softmax,
                 };
@@ -580,7 +580,14 @@ impl Gen {
             },
         };
         let n = numel(&Self::dims_of(sim, root));
-        let seed = self.seed_for(n);
+        let rd = Self::dims_of(sim, root);
+        let seed = if self.rng.chance(6, 100) {
+            // the seed is a clone of a live array of the root's shape (often the root itself)
+            let same: Vec<Slot> = sim.live_slots().into_iter().filter(|s| Self::dims_of(sim, *s) == rd).collect();
+            Seed::FromSlot(if self.rng.chance(1, 2) { root } else { *self.rng.pick(&same) })
+        } else {
+            self.seed_for(n)
+        };
         let via_clone = self.faults_enabled[0] && self.rng.chance(15, 100);
         vec![Ev::Pass { root, seed, via_clone }]
     }
